@@ -420,9 +420,23 @@ func (m *Mux) serveHTTP(w http.ResponseWriter, r *http.Request) error {
 		})
 	}
 
+	// A call that is refused after the begin event and before a stream
+	// exists still ends for the stats handler.
+	statsEnd := func(err error) {
+		if sh := m.opts.statsHandler; sh != nil {
+			sh.HandleRPC(ctx, &stats.End{
+				Client:    false,
+				BeginTime: beginTime,
+				EndTime:   time.Now(),
+				Error:     err,
+			})
+		}
+	}
+
 	if isWebsocket {
 		conn, _, _, err := ws.UpgradeHTTP(r, w)
 		if err != nil {
+			statsEnd(err)
 			return err
 		}
 		defer conn.Close()
@@ -476,6 +490,7 @@ func (m *Mux) serveHTTP(w http.ResponseWriter, r *http.Request) error {
 	if cz := m.opts.compressors[contentEncoding]; cz != nil {
 		z, err := cz.Decompress(r.Body)
 		if err != nil {
+			statsEnd(err)
 			return err
 		}
 		body = z
@@ -489,6 +504,7 @@ func (m *Mux) serveHTTP(w http.ResponseWriter, r *http.Request) error {
 		w.Header().Set("Content-Encoding", acceptEncoding)
 		z, err := cz.Compress(w)
 		if err != nil {
+			statsEnd(err)
 			return err
 		}
 		defer z.Close()
